@@ -911,13 +911,13 @@ func c11Witness(w *core.WorkerCtx) {
 	defer net.Close()
 	net.ResetExecution()
 	p, err1 := c11Originate(net, 0, "vrx", 1)
-	net.WaitStable(6)
+	net.WaitSent()
 	c, err2 := c11Originate(net, 0, "vrx", 2)
 	if err1 != nil || err2 != nil {
 		w.R.Inconc("witness items could not be created")
 		return
 	}
-	net.WaitStable(6)
+	net.WaitSent()
 	// deliver the child's message first
 	for guard := 0; guard < 50; guard++ {
 		net.WaitStable(4)
